@@ -124,7 +124,9 @@ def native_search(start, target_name, debug=False):
         return None, f"raised {type(e).__name__}"
 
 
-def check_search(run, fn):
+def check_search(run, fn, reverse=False):
+    """reverse: the same exhaustive enumeration in a FRESH interpreter with the start states visited in the opposite order (the first
+    search of a process then starts from the LAST state of the workflow): nothing a search leaves behind may change a later one."""
     I = new_interp()
     states = extract_graph(I)
     mod = I.load_module(MOD)
@@ -132,13 +134,15 @@ def check_search(run, fn):
     ids = [I.class_attr(SID, nm) for nm in getattr(SID, "enum_members", [])]
     run.extra["extracted_graph"] = {k: {"id": repr(v["id"]), "edges": {t: (c.name if isinstance(c, ClassV) else None) for t, c in v["edges"].items()}} for k, v in states.items()}
     ok_graph = len(states) >= 3 and len(ids) >= 3
-    run.prove("C18.py.graph.extracted", [], z3.BoolVal(ok_graph), function=fn)
-    for start, info in sorted(states.items()):
+    if not reverse:
+        run.prove("C18.py.graph.extracted", [], z3.BoolVal(ok_graph), function=fn)
+    tag = "[later_states_first]" if reverse else ""
+    for start, info in sorted(states.items(), reverse=reverse):
         inst = SObj(info["cls"], {"name": "design", "_history": PyList([info["id"]])}, start.lower())
         for tid, dbg in [(t, d) for t in ids for d in (False, None, True)]:
             # the optional `debug` flag only adds printing: explicit False, the default (omitted) and explicit True give the same path
             want = bfs(states, start, tid)
-            name = f"C18.py.search[{start}->{tid.name}]" + ("" if dbg is False else ("[debug_default]" if dbg is None else "[debug_on]"))
+            name = f"C18.py.search[{start}->{tid.name}]" + ("" if dbg is False else ("[debug_default]" if dbg is None else "[debug_on]")) + tag
             try:
                 got = I.call(I.getattr(inst, "search"), [tid], {} if dbg is None else {"debug": dbg})
                 got_list = list(got.items) if isinstance(got, PyList) else None
@@ -163,7 +167,7 @@ def check_search(run, fn):
                 detail = f"search from {start} to {tid.name}: {outcome} {got_list}; a shortest path is {want}"
             if not good:
                 run.findings.append(Finding(ob.name, f"{start}->{tid.name}", detail, {"language": "python", "inputs": {"start": start, "target": tid.name, "debug": dbg}, "oracle_verdict": detail}, True))
-        for bad, label in (("Fit_Model", "a string"), (2, "an int"), (None, "None"), (info["cls"], "a state class")):
+        for bad, label in (() if reverse else (("Fit_Model", "a string"), (2, "an int"), (None, "None"), (info["cls"], "a state class"))):
             try:
                 I.call(I.getattr(inst, "search"), [bad], {"debug": False})
                 outcome = "returned"
@@ -464,10 +468,45 @@ def native_grid_points(run):
     return problems
 
 
+def native_order_rows(starts):
+    """[[start, target, path | None, outcome]] from the real search run in a FRESH process, for the start states in the given order."""
+    import json as _json
+    import os as _os
+    import subprocess as _sp
+    import sys as _sys
+
+    code = "import sys, json; sys.path.insert(0, %r); from checks import C18; print('C18ORDER ' + json.dumps([[s, t] + list(C18.native_search(s, t, None)) for s in %r for t in ('Start', 'Symbolic_Model', 'Fit_Model')]))" % (_os.path.dirname(_os.path.dirname(_os.path.abspath(__file__))), list(starts))
+    out = _sp.run([_sys.executable, "-c", code], capture_output=True, text=True, env=dict(_os.environ), timeout=600)
+    rows = next((_json.loads(ln[len("C18ORDER "):]) for ln in out.stdout.splitlines() if ln.startswith("C18ORDER ")), None)
+    return rows, out.stderr[-200:]
+
+
 def check(run):
     fn = "formak.ui_state_machine (executed by exact unrolling)"
     run.exhaustive = True
-    check_search(run, fn)
+    states = check_search(run, fn)
+    check_search(run, fn, reverse=True)
+    # the real search natively, in one process, later states first (always): what an earlier search leaves behind must not matter
+    nfails = 0
+    # (a FRESH process: the interpreter's native fallbacks above may already have searched from the start state in this one)
+    rows, err = native_order_rows(sorted(states, reverse=True))
+    if rows is None:
+        run.notes.append(f"native search-order pass did not run: {err}")
+        rows = []
+    for start, tid_name, got_list, outcome in rows:
+        if True:
+            run.native_runs += 1
+            tid = next((v["id"] for v in states.values() if getattr(v["id"], "name", None) == tid_name), None)
+            want = bfs(states, start, tid) if tid is not None else None
+            good = (outcome == "raised ValueError") if want is None else (got_list is not None and len(got_list) == len(want) and follow(states, start, got_list) is not None and states[follow(states, start, got_list)]["id"] is tid)
+            if not good:
+                nfails += 1
+                detail = f"real search from {start} to {tid_name} (searches from later states ran first in this process): {outcome} {got_list}; a shortest path is {want}"
+                run.findings.append(Finding("C18.py.native_search_order", f"{start}->{tid_name}", detail, {"language": "python", "inputs": {"start": start, "target": tid_name, "native_order": True}, "oracle_verdict": detail}, True))
+                break
+        if nfails:
+            break
+    run.bounded.append({"what": "real StateMachineState.search natively for every (start, target) pair in one process, start states in reverse workflow order", "bound": "9 pairs (exhaustive for the workflow's states)", "failures": nfails, "counted_as_proved": False})
     check_histories(run, fn)
     rep = run.verify(FitModelImpl(), {})
     for ob, model, definitive in driver.refuted(run, rep):
@@ -500,6 +539,11 @@ def replay_file(payload):
         p = native_small_data(driver.PropertyRun("C18", "quick", 0))
         print("replay C18 (small data sets):", p[:2] or "every data set with fewer than 3 samples is refused with ModelFitError")
         return not p
+    if (payload.get("inputs") or {}).get("native_order"):
+        rows, err = native_order_rows(["SymbolicModelState", "FitModelState", "DesignManager"])
+        print("replay C18 (real searches in one fresh process, later states first):", rows or err)
+        want = {("DesignManager", "Symbolic_Model"): ["symbolic_model"], ("DesignManager", "Fit_Model"): ["symbolic_model", "fit_model"], ("SymbolicModelState", "Fit_Model"): ["fit_model"]}
+        return bool(rows) and all(r[2] == want[(r[0], r[1])] for r in rows if (r[0], r[1]) in want)
     if (payload.get("inputs") or {}).get("two_fits"):
         run0 = driver.PropertyRun("C18", "quick", (payload.get("inputs") or {}).get("seed", 0))
         p = native_two_fits(run0)
